@@ -157,6 +157,16 @@ def _k_origin_gap_filter(clause, facts):
     return False
 
 
+@findings.classifier("c15_allowance_on_both_sides_of_origin")
+def _k_allowance_twice(clause, facts):
+    """ for a gap running through the origin next to a gene that itself spans the origin, the allowed overlap
+        is granted once before and once after the origin, so an ORF through the origin may overlap that one
+        gene by up to twice the allowance. Must not hide: excess overlap of ORFs that do not wrap, or into
+        genes that do not span the origin. """
+    return (clause == "find-overlap-exceeds-allowance" and facts.get("overlapped_gene_spans_origin") is True
+            and facts.get("orf_wraps") is True)
+
+
 # ---------------------------------------------------------------------------
 # sequence generation
 # ---------------------------------------------------------------------------
